@@ -41,12 +41,17 @@ def cases(tier, seed):
             out.append({"kind": "random", "cls": "random:" + cls, "entry": cls, "idx": idx, "seed": seed,
                         "maxd": 6 if tier == "quick" else 12})
             idx += 1
+    # extreme magnitudes (squares under/overflow): only the clauses that copy / negate / permute data are judged (exact, T1)
+    for cls in ("tiny170", "tiny300", "subnormal", "huge300", "mixed_extreme", "signed_zeros"):
+        for rep in range(nrep):
+            out.append({"kind": "extreme", "cls": "extreme:" + cls, "entry": cls, "idx": idx, "seed": seed, "maxd": 6 if tier == "quick" else 12})
+            idx += 1
     out.append({"kind": "misc", "cls": "misc", "seed": seed})
     return out
 
 
 def run_case(spec, ctx, R):
-    {"basis": _basis, "random": _random, "misc": _misc}[spec["kind"]](spec, ctx, R)
+    {"basis": _basis, "random": _random, "misc": _misc, "extreme": _extreme}[spec["kind"]](spec, ctx, R)
 
 
 def _eq(a, b):
@@ -80,6 +85,62 @@ def _embeddings(U, A):
     if A.shape[0] == A.shape[1]:
         out["adjoint"] = (U.quaternion_to_complex_adjoint(A.copy()), embed.chi(A), "H")
     return out
+
+
+def _extreme_entries(rng, cls, m, n):
+    c = rng.standard_normal((m, n, 4))
+    if cls == "tiny170":
+        c *= 1e-170
+    elif cls == "tiny300":
+        c *= 1e-300
+    elif cls == "subnormal":
+        c *= 1e-315
+    elif cls == "huge300":
+        c *= 1e300
+    elif cls == "mixed_extreme":
+        c *= 10.0 ** rng.choice([-300.0, -170.0, -20.0, 0.0, 20.0, 150.0, 300.0], size=(m, n, 1))
+        c[rng.random((m, n)) < 0.3] = 0.0
+    elif cls == "signed_zeros":
+        c = np.where(rng.random((m, n, 4)) < 0.5, 0.0, -0.0) + np.where(rng.random((m, n, 4)) < 0.3, c, 0.0)
+    return refq.qa(c)
+
+
+def _bits(x):
+    return np.ascontiguousarray(np.asarray(x, dtype=float)).view(np.uint64)
+
+
+def _extreme(spec, ctx, R):
+    """Exact (T1) clauses on entries whose squares under- or overflow, on subnormals and on signed zeros."""
+    U = R.utils
+    rng = gen.rng_for(spec["seed"], "c02x", spec["idx"])
+    cls = spec["entry"]
+    for rep in range(3):
+        m, n = (int(x) for x in rng.integers(1, spec["maxd"] + 1, size=2))
+        if rep == 0:
+            n = m
+        A = _extreme_entries(rng, cls, m, n)
+        ctx.distinct(A)
+        if rep == 0 and spec["idx"] % 4 == 0:
+            ctx.sample({"class": cls, "A": A})
+        det = {"class": cls, "shape": [m, n]}
+        with np.errstate(all="ignore"):
+            EA = _embeddings(U, A)
+            clause = {"real_expand": "expand_entrywise", "Realp": "realp_entrywise", "adjoint": "adjoint_entrywise"}
+            for name, (got, ref, star) in EA.items():
+                ctx.check(clause[name], _eq(got, ref), site=name + ":extreme", detail=det)
+                gH = _embeddings(U, refq.herm(A))[name][0]
+                ctx.check("star", _eq(gH, got.T if star == "T" else got.conj().T), site=name + ":extreme", detail=det)
+            # round trip bit-for-bit (also the sign of zeros), injectivity, exact homogeneity with a power of two
+            back = U.real_contract(U.real_expand(A.copy()), m, n)
+            ctx.check("roundtrip_bits", bool(np.array_equal(_bits(refq.fa(back)), _bits(refq.fa(A)))), site="contract(expand):extreme", detail=det)
+            if np.any(refq.fa(A) != 0):
+                ctx.check("injective", bool(np.any(U.real_expand(A.copy()) != 0)), site="real_expand:extreme", detail=det)
+            sc = 2.0 ** int(rng.integers(-3, 4))
+            ctx.check("linearity", _eq(U.real_expand(A * sc), sc * U.real_expand(A.copy())), site="real_expand:extreme:power_of_two", detail=det)
+            S0 = R.solver.QGMRESSolver()
+            cs = S0._quat_to_components(A.copy())
+            ctx.check("components_roundtrip", bool(np.array_equal(_bits(refq.fa(S0._components_to_quat(*cs))), _bits(refq.fa(A)))),
+                      site="_quat_to_components:extreme", detail=det)
 
 
 def _random(spec, ctx, R):
